@@ -243,7 +243,26 @@ func (c09) Gen(tier string, seed int64, emit func([]Ev)) {
 			default:
 				e = Ev{"op": "encode", "how": ""}
 			}
+			if GS(e["op"]) == "set" && nseg > 0 && r.Intn(14) == 0 {
+				// a descriptor made to carry a multiple-UPID list, then given the UPID type it already has
+				tg := fmt.Sprintf("seg:%d", r.Intn(nseg))
+				l := []Ev{}
+				for q := 1 + r.Intn(3); q > 0; q-- {
+					l = append(l, Ev{"type": []int{9, 14, 1}[r.Intn(3)], "upid": B(rndBytes(r, 1+r.Intn(9)))})
+				}
+				h = append(h, Ev{"op": "set", "target": tg, "field": "seg.upidtype", "arg": 13},
+					Ev{"op": "set", "target": tg, "field": "seg.mid", "arg": l},
+					Ev{"op": "set", "target": tg, "field": "seg.upidtype", "arg": -1})
+			}
 			h = append(h, e)
+			if _, own := e["plan"]; GS(e["op"]) == "set" && !own && e["how"] == nil && r.Intn(6) == 0 {
+				// the same call again with the same argument: the second one must change nothing
+				e2 := Ev{"repeat": true}
+				for k, v := range e {
+					e2[k] = v
+				}
+				h = append(h, e2)
+			}
 		}
 		h = append(h, Ev{"op": "encode", "how": ""})
 		emit(h)
@@ -269,6 +288,9 @@ func (c09) Exec(h []Ev) []Ev {
 		if dead {
 			e["panic"] = "skipped-after-panic"
 			continue
+		}
+		if _, ok := e["repeat"]; !ok {
+			e["repeat"] = false
 		}
 		e["panic"] = guard(func() {
 			how := GS(e["how"])
